@@ -224,15 +224,20 @@ COLLIDE_FILES = [
     ('import vfx.beta.mod\nvfx.beta.mod.fn.x = 33\n', 'beta.fn'),               # second plain import of package vfx
     ('import vfx.alpha.mod as vfy\nvfy.Cls.x = 44\n', 'alpha.Cls'),              # alias equal to another package name
     ('import vfy.vfx\nvfy.vfx.hfn.x = 22\n', 'vfy.hfn'),                        # plain import of package vfy
+    ('from vfx.beta import mod\nmod.fn.x = 33\n', 'beta.fn'),                    # a second module bound as `mod`
+    ('from vfx.delta import mod\nmod.fn.x = 55\n', 'delta.fn'),                  # ... and a third one
+    # two plain imports of the same depth with the same leaf name in ONE file
+    ('import vfx.alpha.mod\nimport vfx.beta.mod\nvfx.alpha.mod.fn.x = 11\nvfx.beta.mod.fn.x = 33\n', 'alpha.fn+beta.fn'),
 ]
 NCF = len(COLLIDE_FILES)
 
 
 def c19_collide(f1: int, f2: int, f3: int, n: int) -> bool:
   """
-  pre: 0 <= f1 < 7 and 0 <= f2 < 7 and 0 <= f3 < 7 and 2 <= n <= 3
+  pre: 0 <= f1 < 10 and 0 <= f2 < 10 and 0 <= f3 < 10 and 1 <= n <= 3
   """
   import vfy.vfx as H
+  import vfx.delta.mod as D
   world.fresh()
   cleanup_vfx()
   fs = [rt.pick(f, NCF) for f in (f1, f2, f3)[:n]]
@@ -245,7 +250,8 @@ def c19_collide(f1: int, f2: int, f3: int, n: int) -> bool:
       def observe():
         out = {}
         for key, fn_, log in (('alpha.fn', A.fn, A.CALLS), ('beta.fn', B.fn, B.CALLS),
-                              ('vfy.hfn', H.hfn, H.CALLS), ('alpha.Cls', A.Cls, A.CALLS)):
+                              ('vfy.hfn', H.hfn, H.CALLS), ('alpha.Cls', A.Cls, A.CALLS),
+                              ('delta.fn', D.fn, D.CALLS)):
           del log[:]
           try:
             gin.get_configurable(fn_)()
@@ -255,9 +261,12 @@ def c19_collide(f1: int, f2: int, f3: int, n: int) -> bool:
         return out
 
       before = observe()
-      want = {'alpha.fn': 0, 'beta.fn': 0, 'vfy.hfn': 0, 'alpha.Cls': 0}
+      want = {'alpha.fn': 0, 'beta.fn': 0, 'vfy.hfn': 0, 'alpha.Cls': 0, 'delta.fn': 0}
       for f in fs:
-        want[COLLIDE_FILES[f][1]] = int(COLLIDE_FILES[f][0].rsplit('= ', 1)[1])
+        if '+' in COLLIDE_FILES[f][1]:
+          want['alpha.fn'], want['beta.fn'] = 11, 33
+        else:
+          want[COLLIDE_FILES[f][1]] = int(COLLIDE_FILES[f][0].rsplit('= ', 1)[1])
       for k, v in want.items():
         if before[k] != 'unregistered' and before[k] != v:
           return rt.no('before serialisation %s received %r, expected %r' % (k, before[k], v))
@@ -277,7 +286,7 @@ def c19_collide(f1: int, f2: int, f3: int, n: int) -> bool:
   finally:
     cleanup_vfx()
     for sel in list(gc._REGISTRY._selector_map):
-      if (getattr(gc._REGISTRY[sel].wrapped, '__module__', '') or '').startswith('vfy'):
+      if (getattr(gc._REGISTRY[sel].wrapped, '__module__', '') or '').startswith(('vfy',)):
         gc._REGISTRY.pop(sel)
     for obj in list(gc._INVERSE_REGISTRY):
       if (getattr(obj, '__module__', '') or '').startswith('vfy'):
@@ -289,10 +298,10 @@ HARNESSES = {
         fn='c19_collide',
         anchors=['gin.config:add_import', 'gin.config:_config_str', 'gin.config:minimal_selector'],
         smoke=[dict(f1=0, f2=1, f3=3, n=3), dict(f1=1, f2=0, f3=0, n=2)],
-        tiers={'quick': dict(split=dict(f1=list(range(NCF))), fixed=dict(n=2, f3=0), budget_s=100),
+        tiers={'quick': dict(split=dict(f1=list(range(NCF))), fixed=dict(n=3), budget_s=100),
                'thorough': dict(split=dict(f1=list(range(NCF)), f2=list(range(NCF))), fixed=dict(n=3),
                                 budget_s=300)},
-        bounds='2 (quick) / 3 (thorough) files in every order from 7 whose imports bind colliding names (plain dotted '
+        bounds='3 files in every order from 10 whose imports bind colliding names (incl. three modules bound as `mod` and two plain imports of the same depth and leaf in one file; (plain dotted '
                'import of package vfx x2, from-import / alias / plain import of vfy.vfx, alias equal to another package '
                'name, from-import binding `mod` twice); the emitted config string must re-parse and configure the same '
                'Python objects'),
